@@ -6,6 +6,7 @@ RULE = ("MC (real CRC-24Q polynomial, evaluated by TLC): T1 x^k mod g not in {0,
         "frame length), T2 even number of terms ((x+1)|g: all odd-weight errors), T3 g(0)=1, deg 24 + exhaustive burst cross-check, "
         "linearity; TV: corruption campaigns on the real MessageFrame::new / next_msg_frame: per sampled valid frame every single-bit "
         "flip, all pairs (frames <= 16 bytes) or sampled pairs, sampled odd weights 3..31, bursts of every length 2..24 at every start; "
+        "each corruption is applied in place to a buffer in which the intact frame was accepted just before (state carried between calls), and to a copy placed after / before the intact frame in one buffer walked by MsgFrameIter (only intact bytes may be delivered); "
         "the event records the sets of corruptions that were accepted / delivered, TLC requires both empty and the tried-count to "
         "equal the class size for that frame length; evaluations counts corrupted frames tried; non-trivial = campaign (frame, class); "
         "distinct = distinct (frame, class)")
